@@ -593,6 +593,181 @@ def run(ctx):
         inp, out = pl_meta[i]
         ctx.mismatch("C15.Model.polym_lcp_solver (PrimFloat instance) vs howson_lcp.polym_lcp_solver", inp, out)
 
+    # ================================================================ hardening audit (classes 1-6): dress/dtype, sequences and
+    # fresh-vs-reused objects, non-mutation/aliasing, optional arguments (omitted / explicit default / falsy), boundaries, exceptions
+    import io, contextlib
+    from quantecon import compute_fixed_point
+
+    def cfp(T, v, *a, **kw):
+        buf = io.StringIO()
+        with warnings.catch_warnings(record=True) as w, contextlib.redirect_stdout(buf):
+            warnings.simplefilter("always")
+            try:
+                r = compute_fixed_point(T, v, *a, **kw)
+            except ValueError:
+                return ("err", "ValueError")
+            except Exception as e:
+                return ("exc", repr(e)[:200])
+        return ("ok", [float(x) for x in np.atleast_1d(np.asarray(r, dtype=float))], any("max_iter attained" in str(x.message) for x in w))
+
+    def hcheck(cls, label, canon, got, inp):
+        st = got[0] if isinstance(got, tuple) and got and isinstance(got[0], str) else "ok"
+        ctx.case(("harden", cls, label), nontrivial=(st == "ok"))
+        ctx.count("%s:%s%s" % (cls, label, "" if st == "ok" else ":" + st))
+        if st == "exc":
+            ctx.fail("unexpected_exception", "exception on a valid call (%s %s): %s" % (cls, label, got[1]), inp, got, canon)
+        elif got != canon:
+            ctx.fail("harden_result_differs", "%s %s: result differs from the canonical call" % (cls, label), inp, got, canon)
+
+    T1 = lambda v: 0.5 * np.asarray(v, dtype=float) + 1.0                  # contraction, fixed point 2
+    T2 = lambda v: np.floor(np.asarray(v, dtype=float) / 2.0) + 3.0        # integer-valued map (exact in every dtype)
+    kw0 = dict(error_tol=1e-3, max_iter=50, verbose=0)
+    for meth in ("iteration", "imitation_game"):
+        canon1 = cfp(T1, np.array([8.0, 4.0]), method=meth, **kw0)
+        canon2 = cfp(T2, np.array([40.0, 9.0]), method=meth, **kw0)
+        hcheck("dress", "fp:%s:v=list" % meth, canon1, cfp(T1, [8.0, 4.0], method=meth, **kw0), {"method": meth, "v": "list"})
+        hcheck("dress", "fp:%s:v=tuple" % meth, canon1, cfp(T1, (8.0, 4.0), method=meth, **kw0), {"method": meth, "v": "tuple"})
+        hcheck("dress", "fp:%s:v=int64 array(integer map)" % meth, canon2, cfp(T2, np.array([40, 9]), method=meth, **kw0), {"method": meth, "v": "int64 array"})
+        hcheck("dress", "fp:%s:v=int32 array(integer map)" % meth, canon2, cfp(T2, np.array([40, 9], dtype=np.int32), method=meth, **kw0), {"method": meth, "v": "int32 array"})
+        hcheck("dress", "fp:%s:v=float32 array(integer map)" % meth, canon2, cfp(T2, np.array([40, 9], dtype=np.float32), method=meth, **kw0), {"method": meth, "v": "float32"})
+        hcheck("dress", "fp:%s:v=row of a larger array" % meth, canon1, cfp(T1, np.array([[8.0, 4.0], [0.0, 0.0]])[0], method=meth, **kw0), {"method": meth, "v": "row view"})
+        hcheck("dress", "fp:%s:v=non-contiguous view" % meth, canon1, cfp(T1, np.array([[8.0, 0.0], [4.0, 0.0]])[:, 0], method=meth, **kw0), {"method": meth, "v": "column view"})
+        cs = cfp(T1, 8.0, method=meth, **kw0)
+        for lab, cv in (("int", int), ("np.int64", np.int64), ("np.int32", np.int32), ("np.float64", np.float64), ("np.float32", np.float32)):
+            hcheck("dress", "fp:%s:scalar v=%s" % (meth, lab), cs, cfp(T1, cv(8), method=meth, **kw0), {"method": meth, "v": 8, "dress": lab})
+        for lab, cv in (("np.int64", np.int64), ("np.int32", np.int32), ("np.intp", np.intp), ("np.uint8", np.uint8)):
+            hcheck("dress", "fp:%s:max_iter,print_skip=%s" % (meth, lab), canon1, cfp(T1, np.array([8.0, 4.0]), error_tol=1e-3, max_iter=cv(50), verbose=0, print_skip=cv(5), method=meth),
+                   {"method": meth, "max_iter": lab})
+        hcheck("dress", "fp:%s:error_tol=np.float32" % meth, cfp(T1, np.array([8.0, 4.0]), error_tol=float(np.float32(1e-3)), max_iter=50, verbose=0, method=meth),
+               cfp(T1, np.array([8.0, 4.0]), error_tol=np.float32(1e-3), max_iter=50, verbose=0, method=meth), {"method": meth, "error_tol": "float32"})
+        hcheck("dress", "fp:%s:error_tol=int 1" % meth, cfp(T1, np.array([8.0, 4.0]), error_tol=1.0, max_iter=50, verbose=0, method=meth),
+               cfp(T1, np.array([8.0, 4.0]), error_tol=1, max_iter=50, verbose=0, method=meth), {"method": meth, "error_tol": 1})
+        # optional arguments: omitted / explicit defaults / verbose 0,1,2 / print_skip
+        dflt = cfp(T1, np.array([8.0, 4.0]), method=meth)
+        hcheck("optional", "fp:%s:explicit defaults" % meth, dflt, cfp(T1, np.array([8.0, 4.0]), error_tol=1e-3, max_iter=50, verbose=2, print_skip=5, method=meth), {"method": meth})
+        hcheck("optional", "fp:%s:positional defaults" % meth, dflt, cfp(T1, np.array([8.0, 4.0]), 1e-3, 50, 2, 5, meth), {"method": meth})
+        for vb in (0, 1, 2):
+            for ps_ in (1, 5, 1000):
+                hcheck("optional", "fp:%s:verbose=%d,print_skip=%d" % (meth, vb, ps_), canon1, cfp(T1, np.array([8.0, 4.0]), error_tol=1e-3, max_iter=50, verbose=vb, print_skip=ps_, method=meth),
+                       {"method": meth, "verbose": vb, "print_skip": ps_})
+        # falsy but valid tolerance: error_tol = 0 must NOT fall back to the default; 20 applications cannot reach the fixed point exactly
+        z = cfp(T1, np.array([8.0, 4.0]), error_tol=0, max_iter=20, verbose=1, method=meth)
+        ctx.case(("harden", "optional", "fp tol 0", meth), nontrivial=True); ctx.count("optional:fp:%s:error_tol=0(falsy)" % meth)
+        if z[0] != "ok" or not z[2]:
+            ctx.fail("falsy_tolerance_replaced", "error_tol=0, max_iter=20 on v -> v/2+1 from (8,4): the point reached is not a fixed point, a warning is required",
+                     {"method": meth, "error_tol": 0, "max_iter": 20}, z, None)
+        hcheck("optional", "fp:%s:verbose=0 never warns" % meth, False, cfp(T1, np.array([8.0, 4.0]), error_tol=1e-12, max_iter=3, verbose=0, method=meth)[2], {"method": meth, "verbose": 0})
+        # boundaries and documented errors
+        hcheck("boundary", "fp:%s:max_iter=1" % meth, ("ok", [8.0, 4.0] if meth == "imitation_game" else [5.0, 3.0], True),
+               cfp(T1, np.array([8.0, 4.0]), error_tol=1e-3, max_iter=1, verbose=1, method=meth), {"method": meth, "max_iter": 1})
+        hcheck("boundary", "fp:%s:start at the fixed point" % meth, ("ok", [2.0, 2.0], False), cfp(T1, np.array([2.0, 2.0]), error_tol=0.0, max_iter=5, verbose=1, method=meth), {"method": meth, "v": [2, 2]})
+        hcheck("boundary", "fp:%s:size-1 array" % meth, ("ok", cs[1], cs[2]) if cs[0] == "ok" else cs, cfp(T1, np.array([8.0]), method=meth, **kw0), {"method": meth, "v": [8.0]})
+        for bad_kw, lab in ((dict(max_iter=0), "max_iter=0"), (dict(verbose=3), "verbose=3"), (dict(max_iter=-1), "max_iter=-1")):
+            hcheck("errors", "fp:%s:%s->ValueError" % (meth, lab), ("err", "ValueError"), cfp(T1, np.array([8.0, 4.0]), method=meth, **dict(dict(error_tol=1e-3, max_iter=50, verbose=0), **bad_kw)), {"method": meth, "bad": lab})
+        # extra positional / keyword arguments are handed to T
+        T3 = lambda v, c, scale=1.0: scale * np.asarray(v, dtype=float) + c
+        hcheck("optional", "fp:%s:*args/**kwargs to T" % meth, canon1, cfp(T3, np.array([8.0, 4.0]), 1e-3, 50, 0, 5, meth, 1.0, scale=0.5), {"method": meth, "args": [1.0], "kwargs": {"scale": 0.5}})
+        # interleaving and aliasing
+        a1 = cfp(T1, np.array([8.0, 4.0]), method=meth, **kw0); cfp(T2, np.array([40.0, 9.0]), method=meth, **kw0)
+        hcheck("seq", "fp:%s:A,B,A" % meth, a1, cfp(T1, np.array([8.0, 4.0]), method=meth, **kw0), {"method": meth})
+        vin = np.array([8.0, 4.0]); r_ = compute_fixed_point(T1, vin, error_tol=1e-3, max_iter=50, verbose=0, method=meth)
+        ctx.case(("harden", "alias", "fp", meth), nontrivial=True); ctx.count("alias:fp:%s" % meth)
+        if meth == "imitation_game" and (not np.array_equal(vin, [8.0, 4.0]) or np.shares_memory(r_, vin)):
+            ctx.fail("argument_mutated", "imitation_game changed its initial point or returns an alias of it", {"method": meth}, vin.tolist(), [8.0, 4.0])
+        if meth == "iteration" and not np.array_equal(np.asarray(r_), vin):
+            ctx.fail("result_aliased", "iteration method: the documented in-place update of v and the returned array disagree", {"method": meth}, None, None)
+    hcheck("errors", "fp:method='bogus'->ValueError", ("err", "ValueError"), cfp(T1, np.array([8.0, 4.0]), method="bogus", **kw0), {"method": "bogus"})
+
+    # ---------------- mclennan_tourky
+    def mt(g_, **kw):
+        try:
+            r = mclennan_tourky(g_, **kw)
+        except (ValueError, TypeError, NotImplementedError) as e:
+            return ("err", type(e).__name__)
+        except Exception as e:
+            return ("exc", repr(e)[:200])
+        if isinstance(r, tuple) and len(r) == 2 and hasattr(r[1], "converged"):
+            return ("ok", [np.asarray(a, dtype=float).tolist() for a in r[0]], bool(r[1].converged), int(r[1].num_iter))
+        return ("ok", [np.asarray(a, dtype=float).tolist() for a in r])
+    arrA = np.zeros((2, 3, 2, 3))
+    for pr in itertools.product(range(2), range(3), range(2)):
+        for i_ in range(3):
+            arrA[pr + (i_,)] = ((pr[0] * 7 + pr[1] * 5 + pr[2] * 3 + i_ * 11) % 13) - 6
+    arrB = np.array([[[3.0, 3.0], [0.0, 0.0]], [[0.0, 0.0], [2.0, 2.0]]])     # 2x2 coordination game: pure equilibria
+    gA, gB = NormalFormGame(arrA), NormalFormGame(arrB)
+    snapA = [p_.payoff_array.copy() for p_ in gA.players]
+    base = mt(gA, full_output=True)
+    hcheck("optional", "mt:full_output=False", ("ok", base[1]), mt(gA), {"solver": "mclennan_tourky"})
+    hcheck("optional", "mt:full_output omitted vs False", mt(gA), mt(gA, full_output=False), {"solver": "mclennan_tourky"})
+    hcheck("optional", "mt:explicit defaults", base, mt(gA, init=(0, 0, 0), epsilon=1e-3, max_iter=200, full_output=True), {"solver": "mclennan_tourky"})
+    hcheck("optional", "mt:init=None", base, mt(gA, init=None, full_output=True), {"solver": "mclennan_tourky"})
+    for lab, cv in (("np.int64", np.int64), ("np.int32", np.int32), ("np.intp", np.intp), ("np.uint8", np.uint8)):
+        hcheck("dress", "mt:max_iter=%s" % lab, base, mt(gA, max_iter=cv(200), full_output=True), {"solver": "mclennan_tourky", "max_iter": lab})
+    hcheck("dress", "mt:epsilon=np.float32", mt(gA, epsilon=float(np.float32(0.25)), full_output=True), mt(gA, epsilon=np.float32(0.25), full_output=True), {"solver": "mclennan_tourky", "epsilon": "float32"})
+    hcheck("dress", "mt:epsilon=int 1", mt(gA, epsilon=1.0, full_output=True), mt(gA, epsilon=1, full_output=True), {"solver": "mclennan_tourky", "epsilon": 1})
+    hcheck("dress", "mt:payoffs int64 / float32 / nested list", base, mt(NormalFormGame(arrA.astype(np.int64)), full_output=True), {"solver": "mclennan_tourky", "payoffs": "int64"})
+    hcheck("dress", "mt:payoffs float32", base, mt(NormalFormGame(arrA.astype(np.float32)), full_output=True), {"solver": "mclennan_tourky", "payoffs": "float32"})
+    hcheck("dress", "mt:payoffs nested list", base, mt(NormalFormGame(arrA.tolist()), full_output=True), {"solver": "mclennan_tourky", "payoffs": "list"})
+    hcheck("dress", "mt:init mixed as lists", mt(gA, init=(np.array([0.5, 0.5]), np.array([0.25, 0.25, 0.5]), np.array([1.0, 0.0])), full_output=True),
+           mt(gA, init=([0.5, 0.5], [0.25, 0.25, 0.5], [1.0, 0.0]), full_output=True), {"solver": "mclennan_tourky", "init": "lists"})
+    z = mt(gB, epsilon=0, full_output=True)          # falsy epsilon: convergence means an EXACT equilibrium
+    ctx.case(("harden", "optional", "mt eps 0"), nontrivial=True); ctx.count("optional:mt:epsilon=0(falsy)")
+    if z[0] != "ok" or (z[2] and max(max(gi) for gi in exact_deviation_gains(arrB, [2, 2], [[F(x) for x in a_] for a_ in z[1]])) > 0):
+        ctx.fail("falsy_tolerance_replaced", "mclennan_tourky(epsilon=0) reports convergence at a profile that is not an exact equilibrium", {"solver": "mclennan_tourky", "epsilon": 0}, z, None)
+    hcheck("boundary", "mt:max_iter=1", 1, (mt(gA, max_iter=1, full_output=True) + (None,) * 4)[3], {"solver": "mclennan_tourky", "max_iter": 1})
+    hcheck("errors", "mt:init of wrong length->ValueError", ("err", "ValueError"), mt(gA, init=(0, 0)), {"solver": "mclennan_tourky", "init": [0, 0]})
+    hcheck("errors", "mt:1-player game->NotImplementedError", ("err", "NotImplementedError"), mt(NormalFormGame([Player([1.0, 2.0])])), {"solver": "mclennan_tourky", "N": 1})
+    hcheck("errors", "mt:not a game->TypeError", ("err", "TypeError"), mt(arrA), {"solver": "mclennan_tourky", "g": "ndarray"})
+    hcheck("seq", "mt:A,B,A on live objects", base, (mt(gB, full_output=True), mt(gA, full_output=True))[1], {"solver": "mclennan_tourky"})
+    hcheck("seq", "mt:reused object vs fresh object", base, mt(NormalFormGame(arrA.copy()), full_output=True), {"solver": "mclennan_tourky"})
+    ini = (np.array([0.5, 0.5]), np.array([0.25, 0.25, 0.5]), np.array([1.0, 0.0])); ini0 = [a_.copy() for a_ in ini]
+    n1, _r1 = mclennan_tourky(gA, init=ini, full_output=True); n2, _r2 = mclennan_tourky(gA, init=ini, full_output=True)
+    ctx.case(("harden", "alias", "mt"), nontrivial=True); ctx.count("alias:mt:payoffs,init unchanged; results not aliased")
+    if not all(np.array_equal(a_, b_) for a_, b_ in zip(ini, ini0)) or not all(np.array_equal(p_.payoff_array, s_) for p_, s_ in zip(gA.players, snapA)):
+        ctx.fail("argument_mutated", "mclennan_tourky changed the game's payoff arrays or the initial profile", {"solver": "mclennan_tourky"}, None, None)
+    if any(np.shares_memory(a_, b_) for a_ in n1 for b_ in n2) or any(np.shares_memory(a_, b_) for a_ in n1 for b_ in ini):
+        ctx.fail("result_aliased", "mclennan_tourky results alias each other or the initial profile", {"solver": "mclennan_tourky"}, None, None)
+
+    # ---------------- polym_lcp_solver
+    def pl(pg_, *a, **kw):
+        try:
+            r = polym_lcp_solver(pg_, *a, **kw)
+        except AssertionError:
+            return ("err", "AssertionError")
+        except Exception as e:
+            return ("exc", repr(e)[:200])
+        if isinstance(r, tuple) and len(r) == 2 and hasattr(r[1], "converged"):
+            return ("ok", [np.asarray(a_, dtype=float).tolist() for a_ in r[0]], bool(r[1].converged), int(r[1].num_iter))
+        return ("ok", [np.asarray(a_, dtype=float).tolist() for a_ in r])
+    hn = [3, 2, 3]
+    hpm = {(i_, j_): np.array([[float(((a_ * 7 + c_ * 5 + i_ * 3 + j_ * 11) % 17) - 8) + 0.125 * a_ - 0.0625 * c_ for c_ in range(hn[j_])] for a_ in range(hn[i_])])
+           for i_ in range(3) for j_ in range(3) if i_ != j_}
+    hsnap = {k_: v_.copy() for k_, v_ in hpm.items()}
+    hpg = PolymatrixGame(hpm)
+    base = pl(hpg, full_output=True)
+    hcheck("optional", "polym:full_output=False", ("ok", base[1]), pl(hpg), {"solver": "polym_lcp_solver"})
+    hcheck("optional", "polym:explicit defaults", base, pl(hpg, starting_player_actions=None, max_iter=-1, full_output=True), {"solver": "polym_lcp_solver"})
+    hcheck("optional", "polym:start=zeros", base, pl(hpg, starting_player_actions=[0, 0, 0], full_output=True), {"solver": "polym_lcp_solver"})
+    hcheck("optional", "polym:positional", base, pl(hpg, [0, 0, 0], 10000, True)[:3] + (base[3],) if base[0] == "ok" else base, {"solver": "polym_lcp_solver"})
+    for lab, cv in (("np.int64", np.int64), ("np.int32", np.int32), ("np.intp", np.intp)):
+        hcheck("dress", "polym:max_iter=%s" % lab, base, pl(hpg, max_iter=cv(10000), full_output=True), {"solver": "polym_lcp_solver", "max_iter": lab})
+    hcheck("dress", "polym:payoffs nested lists", base, pl(PolymatrixGame({k_: v_.tolist() for k_, v_ in hpm.items()}), full_output=True), {"solver": "polym_lcp_solver", "payoffs": "list"})
+    hcheck("dress", "polym:payoffs float32 (dyadic data)", base, pl(PolymatrixGame({k_: v_.astype(np.float32) for k_, v_ in hpm.items()}), full_output=True), {"solver": "polym_lcp_solver", "payoffs": "float32"})
+    hcheck("dress", "polym:payoffs F-ordered / views", base, pl(PolymatrixGame({k_: np.asfortranarray(v_) for k_, v_ in hpm.items()}), full_output=True), {"solver": "polym_lcp_solver", "payoffs": "F"})
+    hcheck("dress", "polym:nums_actions given", base, pl(PolymatrixGame(hpm, nums_actions=hn), full_output=True), {"solver": "polym_lcp_solver", "nums_actions": hn})
+    hcheck("boundary", "polym:max_iter=0", (False, 0), (pl(hpg, max_iter=0, full_output=True) + (None,) * 4)[2:4], {"solver": "polym_lcp_solver", "max_iter": 0})
+    hcheck("errors", "polym:invalid start->AssertionError", ("err", "AssertionError"), pl(hpg, starting_player_actions=[0, 5, 0]), {"solver": "polym_lcp_solver", "start": [0, 5, 0]})
+    hcheck("errors", "polym:start of wrong length->AssertionError", ("err", "AssertionError"), pl(hpg, starting_player_actions=[0, 0]), {"solver": "polym_lcp_solver", "start": [0, 0]})
+    other = PolymatrixGame({k_: -v_ for k_, v_ in hpm.items()})
+    hcheck("seq", "polym:A,B,A on live objects", base, (pl(other, full_output=True), pl(hpg, full_output=True))[1], {"solver": "polym_lcp_solver"})
+    hcheck("seq", "polym:reused object vs fresh object", base, pl(PolymatrixGame({k_: v_.copy() for k_, v_ in hpm.items()}), full_output=True), {"solver": "polym_lcp_solver"})
+    p1_ = polym_lcp_solver(hpg); p2_ = polym_lcp_solver(hpg)
+    ctx.case(("harden", "alias", "polym"), nontrivial=True); ctx.count("alias:polym:payoffs unchanged; results not aliased")
+    if not all(np.array_equal(hpm[k_], hsnap[k_]) and np.array_equal(hpg.polymatrix[k_], hsnap[k_]) for k_ in hsnap):
+        ctx.fail("argument_mutated", "polym_lcp_solver changed the polymatrix", {"solver": "polym_lcp_solver"}, None, None)
+    if any(np.shares_memory(a_, b_) for a_ in p1_ for b_ in p2_):
+        ctx.fail("result_aliased", "polym_lcp_solver results of successive calls alias each other", {"solver": "polym_lcp_solver"}, None, None)
+
 
 def replay(data):
     first = data.get("first") or (data.get("mismatches") or [{}])[0]
